@@ -30,6 +30,15 @@ def _spec(draw, big):
   nt, nd = spec['panel']['n_test'], spec['panel']['n_dates']
   if draw(st.booleans()) and nd > nt + 3:
     p['n_pretest_max'] = draw(st.integers(nt + 3, nd - 1))
+  if draw(st.integers(0, 7)) == 0 and len(spec['panel']['ids']) <= 4:
+    # a long history analysed over a window beyond the default of 90 points
+    nd2 = draw(st.integers(100, 170))
+    pn = spec['panel']
+    pn['factor'] = [pn['factor'][i % nd] + ((3 * i) % 5) - 2 for i in range(nd2)]
+    pn['noise'] = [[(row[i % nd] * (1 + i // nd) + 17 * i) % 1021 - 510 for i in range(nd2)] for row in pn['noise']]
+    pn['n_dates'] = nd2
+    pn['flat'], pn['missing'] = [], []
+    p['n_pretest_max'] = draw(st.integers(91, nd2 + 10))
   return spec
 
 
